@@ -3567,3 +3567,379 @@ Proof.
   all: rewrite set_state_final_no_fuel; [eexists; reflexivity|].
   all: rewrite <- S2'; apply (fsm_next_FR _ _ _ _ _ _ E3).
 Qed.
+
+(* ====================================================================== *)
+(* C09 (node-level part): restart / shutdown                               *)
+(* ====================================================================== *)
+(* (1) the request is routed to the Master *)
+Theorem restart_routed_to_master : forall n now orcs, is_master n = false -> master n <> 0 ->
+  step n (ReqRestart now orcs) = Ok (n, [RestartAll (master n)]) /\
+  step n (ReqShutdown now orcs) = Ok (n, [ShutdownAll (master n)]).
+Proof.
+  intros n now orcs M H0. unfold step, on_ending. rewrite M. apply Z.eqb_neq in H0. rewrite H0. split; reflexivity.
+Qed.
+
+Theorem restart_on_master : forall n now orcs, is_master n = true ->
+  step n (ReqRestart now orcs) = set_state loop_fuel n (Some RESTARTING) orcs now [] /\
+  step n (ReqShutdown now orcs) = set_state loop_fuel n (Some SHUTTING_DOWN) orcs now [].
+Proof. intros n now orcs M. unfold step, on_ending. rewrite M. split; reflexivity. Qed.
+
+(* (2) the final orders to the local Supervisor *)
+Definition count_orders (outs : list output) : nat := length (filter is_final_order outs).
+
+Lemma count_orders_app : forall a b, count_orders (a ++ b) = (count_orders a + count_orders b)%nat.
+Proof. intros. unfold count_orders. rewrite filter_app, app_length. reflexivity. Qed.
+
+Lemma fr_no_orders : forall me s outs m m', fr me s m outs m' -> count_orders outs = 0%nat.
+Proof.
+  intros me s outs. induction outs as [|o r IH]; simpl; intros m m' H; [reflexivity|].
+  destruct o; destruct H as [Ha Hb]; unfold count_orders; simpl;
+    try (apply (IH _ _ Hb)); destruct Ha as [_ Ha]; discriminate Ha.
+Qed.
+
+Lemma FR_no_orders : forall n o n', FR n o n' -> count_orders o = 0%nat.
+Proof. intros n o n' [_ [_ T]]. eapply fr_no_orders. exact T. Qed.
+
+Lemma count_zero_not_In : forall o outs, is_final_order o = true -> count_orders outs = 0%nat -> ~ In o outs.
+Proof.
+  intros o outs Ho. induction outs as [|x r IH]; simpl; intros Hc Hin; [contradiction|].
+  unfold count_orders in Hc. simpl in Hc. destruct Hin as [Hin|Hin].
+  - subst. rewrite Ho in Hc. discriminate.
+  - destruct (is_final_order x); [discriminate|]. apply IH; assumption.
+Qed.
+
+(* state s is the initial one or is published in outs *)
+Definition through (s : sstate) (n : node) (outs : list output) : Prop :=
+  fsm_state n = s \/ exists d m i, In (Publish (scode s) d m i) outs.
+
+(* what one event can do with the final orders *)
+Definition Ord (n : node) (o : list output) (n' : node) : Prop :=
+  (count_orders o <= 1)%nat /\
+  (fsm_state n = FINAL -> count_orders o = 0%nat /\ fsm_state n' = FINAL) /\
+  (count_orders o = 1%nat -> fsm_state n' = FINAL) /\
+  (In SendRestart o -> through RESTARTING n o) /\ (In SendShutdown o -> through SHUTTING_DOWN n o).
+
+Lemma Ord_frame : forall n o n', FR n o n' -> Ord n o n'.
+Proof.
+  intros n o n' F. assert (C := FR_no_orders _ _ _ F). destruct F as [_ [S _]].
+  unfold Ord. rewrite C. split; [lia|]. split; [intro X; split; [reflexivity|congruence]|].
+  split; [intro X; discriminate X|]. split.
+  - intro X. exfalso. eapply (count_zero_not_In SendRestart); [reflexivity|exact C|exact X].
+  - intro X. exfalso. eapply (count_zero_not_In SendShutdown); [reflexivity|exact C|exact X].
+Qed.
+
+Lemma through_app_r : forall s n a b, through s n b -> through s n (a ++ b).
+Proof.
+  intros s n a b [H|[d [m [i H]]]]; [left; exact H|right]. exists d, m, i. apply in_or_app. right. exact H.
+Qed.
+
+(* a frame part followed by something that satisfies Ord *)
+Lemma Ord_prefix : forall n oa na ob n', FR n oa na -> Ord na ob n' -> Ord n (oa ++ ob) n'.
+Proof.
+  intros n oa na ob n' F [O1 [O2 [O3 [O4 O5]]]].
+  assert (C := FR_no_orders _ _ _ F). destruct F as [_ [S _]].
+  assert (T : forall s, through s na ob -> through s n (oa ++ ob)).
+  { intros s [H|H]; [left; congruence|apply through_app_r; right; exact H]. }
+  assert (NI : forall x, is_final_order x = true -> In x (oa ++ ob) -> In x ob).
+  { intros x Hx Hin. apply in_app_or in Hin. destruct Hin as [Hin|Hin]; [|exact Hin].
+    exfalso. eapply count_zero_not_In; eassumption. }
+  unfold Ord. rewrite count_orders_app, C. simpl.
+  split; [exact O1|]. split; [intro X; apply O2; congruence|]. split; [exact O3|]. split.
+  - intro X. apply T. apply O4. apply NI; [reflexivity|exact X].
+  - intro X. apply T. apply O5. apply NI; [reflexivity|exact X].
+Qed.
+
+Lemma set_state_Ord : forall fuel n d orcs now acc n' outs,
+  set_state fuel n d orcs now acc = Ok (n', outs) -> exists o, outs = acc ++ o /\ Ord n o n'.
+Proof.
+  induction fuel as [|fuel IH]; intros n d orcs now acc n' outs H.
+  - simpl in H. assert (R : n' = n /\ outs = acc).
+    { destruct d as [ns|]; [|inversion H; split; reflexivity].
+      destruct (sstate_eqb ns (fsm_state n)); [inversion H; split; reflexivity|].
+      destruct (negb (fsm_transition_ok (fsm_state n) ns)); [inversion H; split; reflexivity|discriminate]. }
+    destruct R; subst. exists []. rewrite app_nil_r. split; [reflexivity|apply Ord_frame; apply FR_refl].
+  - simpl in H.
+    assert (Same : Ok (n, acc) = Ok (n', outs) -> exists o, outs = acc ++ o /\ Ord n o n').
+    { intro E. inversion E; subst. exists []. rewrite app_nil_r. split; [reflexivity|apply Ord_frame; apply FR_refl]. }
+    destruct d as [ns|]; [|apply Same; exact H].
+    destruct (sstate_eqb ns (fsm_state n)) eqn:Eeq; [apply Same; exact H|].
+    destruct (fsm_transition_ok (fsm_state n) ns) eqn:Eok; simpl in H; [|apply Same; exact H].
+    clear Same. apply sstate_eqb_neq in Eeq.
+    assert (X := enter_Msame n ns now).
+    destruct (set_fsm n ns) as [n1 o1] eqn:E1. simpl in X.
+    destruct (enter_state n1 ns now) as [n2 o2] eqn:E2. simpl in X. destruct X as [_ [_ S2]]. specialize (S2 Eeq).
+    destruct (next_orcs orcs) as [orc rest].
+    destruct (fsm_next n2 orc now) as [[[n3 o3] d3]|k] eqn:E3; [|discriminate].
+    apply IH in H. destruct H as [o' [Eo [P1 [P2 [P3 [P4 P5]]]]]].
+    assert (F2 := enter_state_FR _ _ _ _ _ E2). assert (F3 := fsm_next_FR _ _ _ _ _ _ E3).
+    assert (S3 : fsm_state n3 = ns) by (rewrite <- S2; apply F3).
+    assert (C23 : count_orders (o2 ++ o3) = 0%nat) by (eapply FR_no_orders; eapply FR_trans; eassumption).
+    assert (O1 : o1 = [publish n1] /\ fsm_state n1 = ns).
+    { unfold set_fsm in E1. destruct (sstate_eqb (fsm_state n) ns) eqn:E; [apply sstate_eqb_eq in E; congruence|].
+      inversion E1; subst. split; [reflexivity|]. unfold fsm_state. rewrite own_set_own. reflexivity. }
+    destruct O1 as [Eo1 S1].
+    assert (Pub : exists d m i, In (Publish (scode ns) d m i) o1).
+    { rewrite Eo1. unfold publish. fold (fsm_state n1). rewrite S1. do 3 eexists. left. reflexivity. }
+    exists (exit_outputs (fsm_state n) ++ o1 ++ o2 ++ o3 ++ o'). split; [rewrite Eo, <- !app_assoc; reflexivity|].
+    assert (Cnt : count_orders (exit_outputs (fsm_state n) ++ o1 ++ o2 ++ o3 ++ o')
+                  = (count_orders (exit_outputs (fsm_state n)) + count_orders o')%nat).
+    { rewrite !count_orders_app. rewrite count_orders_app in C23.
+      replace (count_orders o1) with 0%nat by (rewrite Eo1; reflexivity). lia. }
+    assert (InO : forall x, is_final_order x = true ->
+              In x (exit_outputs (fsm_state n) ++ o1 ++ o2 ++ o3 ++ o') -> In x (exit_outputs (fsm_state n)) \/ In x o').
+    { intros x Hx Hin. apply in_app_or in Hin. destruct Hin as [Hin|Hin]; [left; exact Hin|].
+      apply in_app_or in Hin. destruct Hin as [Hin|Hin].
+      { rewrite Eo1 in Hin. destruct Hin as [Hin|[]]. subst x. discriminate Hx. }
+      rewrite app_assoc in Hin. apply in_app_or in Hin. destruct Hin as [Hin|Hin]; [|right; exact Hin].
+      exfalso. eapply count_zero_not_In; eassumption. }
+    assert (Thr : forall s, through s n3 o' -> through s n (exit_outputs (fsm_state n) ++ o1 ++ o2 ++ o3 ++ o')).
+    { intros s [Hs|[dd [mm [ii Hs]]]]; right.
+      - rewrite S3 in Hs. subst s. destruct Pub as [dd [mm [ii Hp]]]. exists dd, mm, ii.
+        apply in_or_app. right. apply in_or_app. left. exact Hp.
+      - exists dd, mm, ii. apply in_or_app. right. apply in_or_app. right. apply in_or_app. right.
+        apply in_or_app. right. exact Hs. }
+    assert (Gen : exit_outputs (fsm_state n) = [] ->
+                  Ord n (exit_outputs (fsm_state n) ++ o1 ++ o2 ++ o3 ++ o') n').
+    { intro Ex. rewrite Ex in Cnt, InO, Thr. rewrite Ex. rewrite app_nil_l in Cnt, InO, Thr. rewrite app_nil_l.
+      change (count_orders []) with 0%nat in Cnt. simpl in Cnt. unfold Ord. rewrite Cnt.
+      split; [exact P1|]. split; [intro X; rewrite X, final_terminal_table in Eok; discriminate Eok|].
+      split; [exact P3|]. split; intro X; apply Thr.
+      - apply P4. destruct (InO SendRestart eq_refl X) as [Y|Y]; [destruct Y|exact Y].
+      - apply P5. destruct (InO SendShutdown eq_refl X) as [Y|Y]; [destruct Y|exact Y]. }
+    destruct (fsm_state n) eqn:Est; try (apply Gen; reflexivity); clear Gen.
+    + (* RESTARTING *)
+      assert (Ens : ns = FINAL) by (eapply ending_only_final_table; [left; reflexivity|exact Eok]). rewrite Ens in S3.
+      destruct (P2 S3) as [C0 Sf]. unfold Ord. rewrite Cnt, C0. simpl.
+      split; [lia|]. split; [intro X; rewrite Est in X; discriminate X|]. split; [intros _; exact Sf|]. split.
+      * intros _. left. exact Est.
+      * intro X. exfalso. destruct (InO SendShutdown eq_refl X) as [Y|Y].
+        -- destruct Y as [Y|[]]. discriminate Y.
+        -- eapply (count_zero_not_In SendShutdown); [reflexivity|exact C0|exact Y].
+    + (* SHUTTING_DOWN *)
+      assert (Ens : ns = FINAL) by (eapply ending_only_final_table; [right; reflexivity|exact Eok]). rewrite Ens in S3.
+      destruct (P2 S3) as [C0 Sf]. unfold Ord. rewrite Cnt, C0. simpl.
+      split; [lia|]. split; [intro X; rewrite Est in X; discriminate X|]. split; [intros _; exact Sf|]. split.
+      * intro X. exfalso. destruct (InO SendRestart eq_refl X) as [Y|Y].
+        -- destruct Y as [Y|[]]. discriminate Y.
+        -- eapply (count_zero_not_In SendRestart); [reflexivity|exact C0|exact Y].
+      * intros _. left. exact Est.
+Qed.
+
+Lemma fsm_run_Ord : forall n orcs now n' outs, fsm_run n orcs now = Ok (n', outs) -> Ord n outs n'.
+Proof.
+  intros n orcs now n' outs H. unfold fsm_run in H. destruct (next_orcs orcs) as [orc rest].
+  destruct (fsm_next n orc now) as [[[n1 o1] d]|k] eqn:E1; [|discriminate].
+  apply fsm_next_FR in E1. apply set_state_Ord in H. destruct H as [o [Eo P]]. subst outs.
+  eapply Ord_prefix; eassumption.
+Qed.
+
+Lemma on_ending_Ord : forall n t orcs now err n' outs, on_ending n t orcs now err = Ok (n', outs) -> Ord n outs n'.
+Proof.
+  intros n t orcs now err n' outs H. unfold on_ending in H. destruct (is_master n).
+  - apply set_state_Ord in H. destruct H as [o [Eo P]]. simpl in Eo. subst outs. exact P.
+  - destruct (negb (master n =? 0)); [|discriminate]. inversion H; subst. apply Ord_frame.
+    apply FR_plain. destruct t; reflexivity.
+Qed.
+
+(* (2) final_order_only_on_leaving_ending: one event emits at most one final order; when it does, the step starts
+   in or passes through RESTARTING (SendRestart) / SHUTTING_DOWN (SendShutdown) and ends in FINAL; in FINAL
+   nothing is emitted any more *)
+Theorem final_order_only_on_leaving_ending : forall n e n' outs, step n e = Ok (n', outs) -> Ord n outs n'.
+Proof.
+  intros n e n' outs H. apply step_shape in H.
+  destruct H as [F|[na [oa [ob [F [Eo [[orcs [now Hr]]|[t [orcs [now [err [Ht He]]]]]]]]]]]].
+  - apply Ord_frame. exact F.
+  - subst outs. eapply Ord_prefix; [exact F|]. eapply fsm_run_Ord. exact Hr.
+  - subst outs. eapply Ord_prefix; [exact F|]. eapply on_ending_Ord. exact He.
+Qed.
+
+(* number of final orders along the observations of a history *)
+Fixpoint run_orders (l : list obs) : nat :=
+  match l with
+  | [] => 0
+  | NOk o :: r => count_orders (obs_outs o) + run_orders r
+  | NCrash _ :: r => run_orders r
+  end.
+
+Lemma final_no_more_orders : forall evs n, fsm_state n = FINAL ->
+  run_orders (run n evs) = 0%nat /\ forall o, In (NOk o) (run n evs) -> obs_fsm o = scode FINAL.
+Proof.
+  induction evs as [|e r IH]; intros n Hf; simpl; [split; [reflexivity|intros o []]|].
+  destruct (step n e) as [[n' outs]|k] eqn:E; simpl; [|split; [reflexivity|intros o [X|[]]; discriminate X]].
+  destruct (final_order_only_on_leaving_ending _ _ _ _ E) as [_ [P2 _]]. destruct (P2 Hf) as [C0 Sf].
+  destruct (IH n' Sf) as [R1 R2]. change (obs_outs (observe n' outs)) with outs. rewrite C0, R1.
+  split; [reflexivity|]. intros o [X|X]; [|apply R2; exact X].
+  inversion X. change (obs_fsm (observe n' outs)) with (scode (fsm_state n')). rewrite Sf. reflexivity.
+Qed.
+
+(* along every history at most one final order is sent to the local Supervisor *)
+Theorem one_final_order : forall evs n, (run_orders (run n evs) <= 1)%nat.
+Proof.
+  induction evs as [|e r IH]; intros n; simpl; [lia|].
+  destruct (step n e) as [[n' outs]|k] eqn:E; simpl; [|lia].
+  change (obs_outs (observe n' outs)) with outs.
+  destruct (final_order_only_on_leaving_ending _ _ _ _ E) as [P1 [_ [P3 _]]].
+  destruct (count_orders outs) as [|[|c]] eqn:Ec; [apply IH| |lia].
+  destruct (final_no_more_orders r n' (P3 eq_refl)) as [R1 _]. rewrite R1. lia.
+Qed.
+
+(* and once it has been sent the instance is in FINAL for ever *)
+Theorem final_after_order : forall n e n' outs evs, step n e = Ok (n', outs) -> count_orders outs = 1%nat ->
+  fsm_state n' = FINAL /\ run_orders (run n' evs) = 0%nat /\
+  forall o, In (NOk o) (run n' evs) -> obs_fsm o = scode FINAL.
+Proof.
+  intros n e n' outs evs H Hc. destruct (final_order_only_on_leaving_ending _ _ _ _ H) as [_ [_ [P3 _]]].
+  split; [apply P3; exact Hc|]. apply final_no_more_orders. apply P3. exact Hc.
+Qed.
+
+(* (3)/(4) the decision taken in RESTARTING / SHUTTING_DOWN *)
+(* the consistence check of the ending states decided to leave: the local instance is not RUNNING any more, the
+   failure strategy fired, or the instances seen RUNNING do not agree on the Master *)
+Definition consistence_exit (n : node) (now : Z) (n' : node) : Prop :=
+  exists n1 o1 lost lostp n2 o3 x,
+    check_instances n now = Ok (n1, o1, lost, lostp, None) /\ evaluate_stability n1 = Ok n2 /\
+    ms_consistence n2 lost = Ok (n', o3, Some x) /\
+    ((x = OFF /\ local_running n2 = false)
+     \/ (x = SYNCHRONIZATION /\ o_fstrategy (n_opts n2) = FS_RESYNC)
+     \/ (x = SHUTTING_DOWN /\ o_fstrategy (n_opts n2) = FS_SHUTDOWN)
+     \/ (x = ELECTION /\ check_master n' = Ok false)).
+
+Lemma check_failure_strategy_reasons : forall n lost n' o d, check_failure_strategy n lost = (n', o, Some d) ->
+  (d = SYNCHRONIZATION /\ o_fstrategy (n_opts n) = FS_RESYNC) \/ (d = SHUTTING_DOWN /\ o_fstrategy (n_opts n) = FS_SHUTDOWN).
+Proof.
+  intros n lost n' o d H. unfold check_failure_strategy in H.
+  destruct (set_degraded n _) as [n1 o1]. injection H as H1 H2 H3.
+  match type of H3 with (if ?c then _ else _) = _ => destruct c end; [|discriminate].
+  destruct (o_fstrategy (n_opts n)); inversion H3; subst; [left|right]; split; reflexivity.
+Qed.
+
+Lemma ms_consistence_reasons : forall n lost n' o x, ms_consistence n lost = Ok (n', o, Some x) ->
+  (x = OFF /\ local_running n = false)
+  \/ (x = SYNCHRONIZATION /\ o_fstrategy (n_opts n) = FS_RESYNC)
+  \/ (x = SHUTTING_DOWN /\ o_fstrategy (n_opts n) = FS_SHUTDOWN)
+  \/ (x = ELECTION /\ check_master n' = Ok false).
+Proof.
+  intros n lost n' o x H. unfold ms_consistence in H.
+  destruct (sync_consistence n lost) as [[n1 o1] d1] eqn:E. unfold sync_consistence, on_consistence in E.
+  destruct d1 as [y|].
+  - inversion H; subst. destruct (local_running n) eqn:L.
+    + apply check_failure_strategy_reasons in E. right. destruct E as [E|E]; [left|right; left]; exact E.
+    + inversion E; subst. left. split; reflexivity.
+  - destruct (check_master n1) as [ok|k] eqn:Ec; [|discriminate]. simpl in H.
+    destruct ok; inversion H; subst. right. right. right. split; [reflexivity|exact Ec].
+Qed.
+
+Theorem ending_decision : forall n orc now n' o d, fsm_next n orc now = Ok (n', o, d) -> ending (fsm_state n) ->
+  (consistence_exit n now n' /\ d = Some FINAL)
+  \/ (is_master n' = true /\ d = Some (if or_stopping orc then fsm_state n else FINAL))
+  \/ (is_master n' = false /\ d = Some (ending_slave_next n' (fsm_state n))).
+Proof.
+  intros n orc now n' o d H He. unfold fsm_next in H.
+  destruct (check_instances n now) as [[[[[n1 o1] lost] lostp] d1]|k] eqn:E1; [|discriminate].
+  assert (Hb : d1 = None).
+  { eapply check_instances_base; [|exact E1]. destruct He as [He|He]; rewrite He; reflexivity. }
+  subst d1.
+  destruct (evaluate_stability n1) as [n2|k] eqn:E2; [|discriminate].
+  assert (R : forall st, fsm_state n = st -> ending st ->
+    match ms_consistence n2 lost with
+    | Crash k => Crash k
+    | Ok (n3, o3, Some _) => Ok (n3, o1 ++ o3, Some FINAL)
+    | Ok (n3, o3, None) =>
+        let oc := match lost with [] => [] | _ => [JobsInvalidation lost] end in
+        if is_master n3 then Ok (n3, o1 ++ o3 ++ oc, Some (if or_stopping orc then st else FINAL))
+        else Ok (n3, o1 ++ o3 ++ oc, Some (ending_slave_next n3 st))
+    end = Ok (n', o, d) ->
+    (consistence_exit n now n' /\ d = Some FINAL)
+    \/ (is_master n' = true /\ d = Some (if or_stopping orc then st else FINAL))
+    \/ (is_master n' = false /\ d = Some (ending_slave_next n' st))).
+  { intros st Est Hst HH.
+    destruct (ms_consistence n2 lost) as [[[n3 o3] d3]|k] eqn:E3; [|discriminate].
+    destruct d3 as [x|].
+    - inversion HH; subst. left. split; [|reflexivity].
+      exists n1, o1, lost, lostp, n2, o3, x. split; [exact E1|]. split; [exact E2|]. split; [exact E3|].
+      eapply ms_consistence_reasons. exact E3.
+    - destruct (is_master n3) eqn:M; inversion HH; subst; [right; left|right; right]; split; (reflexivity || exact M). }
+  destruct He as [He|He]; rewrite He in *; apply (R _ eq_refl); first [left; reflexivity|right; reflexivity|exact H].
+Qed.
+
+(* (3) a Master leaves RESTARTING / SHUTTING_DOWN for FINAL only when the Stopper is idle, unless the consistence
+   check decided so (candidate finding F4: see early_final_witness) *)
+Theorem master_leaves_ending_only_when_stopper_idle : forall n orc now n' o,
+  fsm_next n orc now = Ok (n', o, Some FINAL) -> ending (fsm_state n) -> is_master n' = true ->
+  or_stopping orc = false \/ consistence_exit n now n'.
+Proof.
+  intros n orc now n' o H He M. destruct (ending_decision _ _ _ _ _ _ H He) as [[C _]|[[_ D]|[M' _]]].
+  - right. exact C.
+  - left. destruct (or_stopping orc); [|reflexivity]. inversion D as [D1]. destruct He as [X|X]; rewrite X in D1; discriminate.
+  - congruence.
+Qed.
+
+Lemma ending_slave_next_spec : forall n st,
+  (master_state n = Some st -> ending_slave_next n st = st) /\
+  (master_state n <> Some st -> ending_slave_next n st = FINAL).
+Proof.
+  intros n st. unfold ending_slave_next. destruct (master_state n) as [ms|]; split; intro H.
+  - inversion H; subst. rewrite sstate_eqb_refl. reflexivity.
+  - destruct (sstate_eqb ms st) eqn:E; [|reflexivity]. apply sstate_eqb_eq in E. subst. contradiction.
+  - discriminate.
+  - reflexivity.
+Qed.
+
+(* (4) a non-Master stays in RESTARTING / SHUTTING_DOWN while its view of the Master is in that state, and goes to
+   FINAL otherwise (or when the consistence check says so) *)
+Theorem slave_leaves_ending_after_master : forall n orc now n' o d,
+  fsm_next n orc now = Ok (n', o, d) -> ending (fsm_state n) -> is_master n' = false ->
+  (consistence_exit n now n' /\ d = Some FINAL)
+  \/ (master_state n' = Some (fsm_state n) /\ d = Some (fsm_state n))
+  \/ (master_state n' <> Some (fsm_state n) /\ d = Some FINAL).
+Proof.
+  intros n orc now n' o d H He M. destruct (ending_decision _ _ _ _ _ _ H He) as [C|[[M' _]|[_ D]]].
+  - left. exact C.
+  - congruence.
+  - right. destruct (ending_slave_next_spec n' (fsm_state n)) as [A B].
+    assert (Dec : master_state n' = Some (fsm_state n) \/ master_state n' <> Some (fsm_state n)).
+    { destruct (master_state n') as [ms|]; [|right; discriminate].
+      destruct (sstate_eqb ms (fsm_state n)) eqn:E; [apply sstate_eqb_eq in E; left; congruence|].
+      right. intro X. inversion X; subst. rewrite sstate_eqb_refl in E. discriminate. }
+    destruct Dec as [X|X]; [left|right]; (split; [exact X|]); rewrite D; f_equal; [apply A|apply B]; exact X.
+Qed.
+
+(* F4 witness: the Master is in SHUTTING_DOWN, the Stopper is still busy (or_stopping = true), instance 2 of the
+   STRICT list is missing and the failure strategy is RESYNC: the consistence check decides, the Master goes to
+   FINAL and sends the shutdown order to its Supervisor at once *)
+Definition f4_node : node :=
+  mkNode 1 (mkOpts 2 false true false false false false 0 FS_RESYNC) [] [1; 2] [(1, 1); (2, 2)]
+         [(1, mkIst IRUNNING 2 2 10); (2, mkIst ISTOPPED 0 0 0)]
+         [(1, mkSm SHUTTING_DOWN false 1 [(1, IRUNNING); (2, ISTOPPED)]); (2, sm_fresh)] [1] false 0 [].
+Definition orc_stopping := mkOr false true false 0.
+
+Theorem early_final_witness :
+  is_master f4_node = true /\ fsm_state f4_node = SHUTTING_DOWN /\ or_stopping orc_stopping = true /\
+  (exists n' o, fsm_next f4_node orc_stopping 20 = Ok (n', o, Some FINAL)) /\
+  (exists n' outs, step f4_node (LocalTick 3 20 [orc_stopping]) = Ok (n', outs)
+                   /\ fsm_state n' = FINAL /\ In SendShutdown outs).
+Proof.
+  split; [reflexivity|]. split; [reflexivity|]. split; [reflexivity|]. split.
+  - vm_compute. do 2 eexists. reflexivity.
+  - vm_compute. do 2 eexists. split; [reflexivity|]. split; [reflexivity|]. auto 10.
+Qed.
+
+(* examples for (1) and (2) *)
+Example ex_restart_routed :
+  step (fst (set_master (ex3_node false) 2)) (ReqRestart 10 [orc0])
+  = Ok (fst (set_master (ex3_node false) 2), [RestartAll 2]).
+Proof. apply restart_routed_to_master; [reflexivity|discriminate]. Qed.
+
+(* the Master (1) in OPERATION receives a shutdown request: SHUTTING_DOWN, then FINAL once the Stopper is idle,
+   with exactly one SendShutdown; later events emit nothing *)
+Definition op_node : node :=
+  mkNode 1 (ex_opts false FS_CONTINUE) [] [] [(1, 1); (2, 2)]
+         [(1, mkIst IRUNNING 2 2 10); (2, mkIst ISTOPPED 0 0 0)]
+         [(1, mkSm OPERATION false 1 [(1, IRUNNING); (2, ISTOPPED)]); (2, sm_fresh)] [1] false 0 [].
+Definition shut_hist : list event :=
+  [ReqShutdown 20 [orc_stopping]; LocalTick 3 25 [orc_stopping]; LocalTick 4 30 [orc0]; LocalTick 5 35 [orc0];
+   ReqShutdown 40 [orc0]].
+
+Example ex_one_final_order :
+  obs_states (run op_node shut_hist) = [7; 7; 8; 8; 8] /\ run_orders (run op_node shut_hist) = 1%nat.
+Proof. vm_compute. split; reflexivity. Qed.
